@@ -95,7 +95,7 @@ Lemma execute_cases w m o :
      let matched := matched_hashes w active limit (m_filters m) (m_hashes m) in
      fo_ban o = 0 /\ fo_min o = fw_min w + N.of_nat limit /\
      fo_record o = match matched with [] => None | _ => Some (m_start m, N.of_nat limit, map (fun h => (h, h =? tip)) matched) end /\
-     fo_bump o = match matched with [] => if fw_mem_empty w then Some (fw_min w + N.of_nat limit) else None | _ => None end).
+     fo_bump o = match matched with [] => if fw_mem_empty w && negb (fw_db_pending w) then Some (fw_min w + N.of_nat limit) else None | _ => None end).
 Proof.
   unfold execute. intros H.
   destruct (fw_scripts w) as [|s0 stl] eqn:S; [left; inversion H; reflexivity|].
@@ -124,7 +124,7 @@ Proof.
     destruct l as [|l]; [reflexivity|]. cbn [firstn chained]. f_equal. apply IH.
   - inversion H; subst; clear H. cbn [fo_ban fo_min fo_record fo_bump].
     split; [reflexivity|]. split; [lia|]. split; [reflexivity|].
-    destruct (matched_hashes _ _ _ _ _); [|reflexivity]. destruct (fw_mem_empty w); [f_equal; lia | reflexivity].
+    destruct (matched_hashes _ _ _ _ _); [|reflexivity]. destruct (fw_mem_empty w && negb (fw_db_pending w)); [f_equal; lia | reflexivity].
 Qed.
 
 Lemma execute_min_monotone w m o : execute w m = Ok o -> fw_min w <= fo_min o.
